@@ -33,6 +33,7 @@ func CreateManager[T Sizer]() Manager[T] {
 
 // Register adds a new item to the manager
 func (m *Manager[T]) Register(item T) {
+	vhook("mgr.register")
 	m.mx.Lock()
 	defer m.mx.Unlock()
 
